@@ -7,36 +7,6 @@ import MxlVerif.Lemmas.C07Main
 namespace Mxl.C07
 open Mxl
 
-/-- `Ok` without "variables are plain" -/
-structure OkV (c : Content) : Prop where
-  surs : c.surs = []
-  data : c.data = []
-  iaP : noIAB c.pars = true
-  num : numCoefs c = true
-  nd : ("time" :: (omKeys c.vars ++ omKeys c.pars ++ omKeys c.derived ++ omKeys c.rxns
-          ++ (omKeys c.vars).map dName)).Nodup
-  stNd : ∀ kv ∈ c.rxns, (omKeys kv.2.stoich).Nodup
-  eqs : allVarsHaveEq c = true
-  onVars : stoichOnVars c = true
-  nonempty : c.vars ≠ []
-
-theorem OkV.names {c : Content} (h : OkV c) : Names c := by
-  have hnd := h.nd
-  simp only [List.nodup_cons, List.nodup_append, List.mem_append, not_or] at hnd
-  obtain ⟨⟨⟨⟨⟨t1, t2⟩, t3⟩, t4⟩, t5⟩, ⟨⟨⟨v, p, vp⟩, d, vpd⟩, r, vpdr⟩, dn, rest⟩ := hnd
-  exact { vNd := v, pNd := p, dNd := d, rNd := r, dnNd := dn, time_v := t1, time_p := t2, time_d := t3,
-          time_r := t4, time_dn := t5,
-          vp := fun a ha hb => vp a ha a hb rfl
-          vd := fun a ha hb => vpd a (Or.inl ha) a hb rfl
-          vr := fun a ha hb => vpdr a (Or.inl (Or.inl ha)) a hb rfl
-          pd := fun a ha hb => vpd a (Or.inr ha) a hb rfl
-          pr := fun a ha hb => vpdr a (Or.inl (Or.inr ha)) a hb rfl
-          dr := fun a ha hb => vpdr a (Or.inr ha) a hb rfl
-          dn_v := fun a ha hb => rest a (Or.inl (Or.inl (Or.inl hb))) a ha rfl
-          dn_p := fun a ha hb => rest a (Or.inl (Or.inl (Or.inr hb))) a ha rfl
-          dn_d := fun a ha hb => rest a (Or.inl (Or.inr hb)) a ha rfl
-          dn_r := fun a ha hb => rest a (Or.inr hb) a ha rfl }
-
 /-! ### plain and assignment-defined parts of a container -/
 
 theorem keys_plainOf_sub : ∀ (m : List (Name × Val)) (a : Name), a ∈ (plainOf m).map (·.1) → a ∈ omKeys m := by
